@@ -81,10 +81,15 @@ def replay(chk, behs, equal_mags, rng):
         core.reset_world()
         setattr(m.PreferredUnits, SLOT[dimA], real["a2"])
         setattr(m.PreferredUnits, SLOT[dimB], real["b2"])
-        x1 = rng.choice([1.0, 2.5, 0.3, 100.0, 17.0])
+        # magnitudes: ordinary values, and (half of the time) numbers that coincide with the integer codes of Unit members
+        # (the enumeration is an IntEnum: a quantity showing "15" must not be mistaken for anything to do with unit 15)
+        codes = [float(int(u)) for u in m.Unit]
+        if "pressure" in (dimA, dimB):
+            codes = [c for c in codes if c > 0]       # a zero pressure is not a valid argument of Atmo (division by zero)
+        x1 = rng.choice([1.0, 2.5, 0.3, 100.0, 17.0]) if bi % 2 else rng.choice(codes)
         if dimA == "angular":
-            x1 = rng.choice([0.01, 0.3, 1.0])
-        x2 = x1 if equal_mags else x1 * 1.4
+            x1 = rng.choice([0.01, 0.3, 1.0]) if bi % 2 else rng.choice([c for c in codes if c <= 5] + [0.0])
+        x2 = x1 if equal_mags else x1 * 1.4 + 0.7
         # q2 is built in q1's unit (equal: bit-identical magnitude; different: 1.4 x, i.e. MagA1 < MagA2 as in the spec)
         # and then displayed in its own initial unit
         q = {"q1": real[b["d0"]["q1"]](x1), "q2": real[b["d0"]["q1"]](x2), "q3": real[b["d0"]["q3"]](x1)}
@@ -135,6 +140,15 @@ def replay(chk, behs, equal_mags, rng):
                     for oo in (o, o2):
                         if oo[0] == "ok" or not isinstance(oo[2], m.UnitConversionError):
                             chk.violation("C13.ForeignUnitYieldedNumber", k, {**det, "got": repr(oo[1])})
+                    # ... and in EVERY unit of every other dimension, not only the one the behaviour names
+                    own = set(dims[dimof[qn]])
+                    for un_all, rec_ in UA.table().items():
+                        if un_all in own:
+                            continue
+                        oo = impl.outcome(lambda: obj >> UA.unit_enum(un_all))
+                        chk.count(1)
+                        if oo[0] == "ok" or not isinstance(oo[2], m.UnitConversionError):
+                            chk.violation("C13.ForeignUnitYieldedNumber", {**k, "unit": un_all}, {**det, "got": repr(oo[1]), "shown": str(obj)})
                 else:
                     for oo in (o, o2):
                         if oo[0] != "ok":
@@ -183,7 +197,11 @@ def replay(chk, behs, equal_mags, rng):
             elif a == "Pass":
                 o = impl.outcome(pass_to_library, m, dimof[qn], obj)
                 if o[0] != "ok":
-                    chk.violation("C13.LibraryCallRaised", k, {**det, "exc": o[1], "text": str(o[2])[:200]})
+                    # the value may be physically inadmissible for that call (0 K, zero pressure): raising is the library's
+                    # right; what C13 demands - the magnitude is untouched - is checked below.  Align the display unit with the
+                    # spec (the call may have raised before or after re-displaying the argument) so that the history continues.
+                    chk.stratum("library_call_raised")
+                    obj._defined_units = real[e["disp"][qn]]
             # ---- after every operation: magnitudes untouched, display units as the spec says
             for name, ob in q.items():
                 if ob.raw_value != raw0[name] or type(ob.raw_value) is not type(raw0[name]):
